@@ -142,10 +142,7 @@ func genC10(r *world.Rng, w *world.World, big bool) {
 	// is decided by search rather than by an immediate contradiction
 	var models []uint32
 	if n <= 16 {
-		models = ref.CNF(n, keep).Models()
-		if len(models) > 64 {
-			models = models[:64]
-		}
+		models = ref.CNF(n, keep).SomeModels(8, r.Next())
 	}
 	for i := 0; i < rounds; i++ {
 		var l []int
